@@ -3,8 +3,8 @@
    Layers: F = documented format (Format.v), S = abstract spec (Spec/SpecStep), I = model of the Rust (World.step'). *)
 From Coq Require Import List NArith Bool Arith Sorted.
 From Coq Require Import Strings.Byte.
-Require Import BS.Bytes BS.Common BS.Api BS.Layout BS.Format BS.FormatFacts BS.Spec BS.SpecStep.
-Require Import BS.FS BS.FSFacts BS.Meta BS.MetaFacts BS.Header BS.Reader BS.ReaderFacts BS.Index BS.Data BS.DataFacts BS.Seek BS.Series BS.SeriesFacts BS.ReadAllFacts BS.TotalFacts BS.OpenFacts BS.CacheFacts BS.CacheOpenFacts.
+Require Import BS.Bytes BS.Common BS.Api BS.Layout BS.Format BS.FormatFacts BS.Spec BS.SpecStep BS.Sections BS.ExtractFacts.
+Require Import BS.FS BS.FSFacts BS.Meta BS.MetaFacts BS.Header BS.Reader BS.ReaderFacts BS.Index BS.Data BS.DataFacts BS.Seek BS.Series BS.SeriesFacts BS.ReadAllFacts BS.TotalFacts BS.OpenFacts BS.CacheFacts BS.CacheOpenFacts BS.HistoryFacts.
 Import ListNotations.
 
 
@@ -29,6 +29,53 @@ Theorem C09_reopen_aligned : forall p, 4 <= p -> forall fs s uhdr name popt hdro
 Proof. exact reopen_caches_aligned. Qed.
 Print Assumptions C09_reopen_aligned.
 
+(* every payload size, under the single marker-word condition of C04 (nm_sec: no continuation slot of a section header of the
+   source or of a cache level looks like a marker line - vacuous for payload sizes >= 4, and the condition under which the
+   library itself can tell an intact tail from a torn one, known finding D6 otherwise) *)
+Theorem C09_reopen_aligned_any_payload : forall p fs s uhdr name popt hdropt cb l (Bs:list N),
+  let header := params_to_text BSgen.Consts.version (N.of_nat p) ++ uhdr in
+  RepS fs s p (outer header) (outer []) l (map (open_spec name) Bs) ->
+  of_name (d_file (s_data s)) = name ++ ext_data -> of_name (ix_file (d_index (s_data s))) = name ++ ext_index ->
+  map cache_files (s_down s) = map (cache_names name) Bs ->
+  Forall (nm_sec p) (secs_of l) ->
+  (len header <= 65535)%N -> (len (encode p l) < 2^64)%N -> (N.of_nat p < 2^64)%N ->
+  (popt = None \/ popt = Some (N.of_nat p)) ->
+  match hdropt with HdrIs e => e = uhdr | HdrAny => True end ->
+  Forall (fun B => (1 <= B)%N /\ (exists k, length l = k * N.to_nat B) /\ Forall (nm_sec p) (secs_of (cache_of p (N.to_nat B) l))
+                   /\ (len (config_header name B) <= 65535)%N /\ (len (encode p (cache_of p (N.to_nat B) l)) < 2^64)%N) Bs ->
+  exists s', builder_open name popt hdropt Bs cb fs = (fs, Ok (s', uhdr))
+    /\ RepS fs s' p (outer header) (outer []) l (map (open_spec name) Bs) /\ s_cb s' = cb
+    /\ of_name (d_file (s_data s')) = name ++ ext_data /\ of_name (ix_file (d_index (s_data s'))) = name ++ ext_index
+    /\ map cache_files (s_down s') = map (cache_names name) Bs.
+Proof. exact reopen_caches_aligned_nm. Qed.
+Print Assumptions C09_reopen_aligned_any_payload.
+
+(* EVERY HISTORY of a series with cache levels made of appends (accepted or refused), resampling reads and close-and-reopen
+   steps with the same levels at aligned line counts (HistoryFacts.cop / cexec / cspec / cvalid): every step succeeds in the
+   model and the series stays in the invariant RepS for exactly the lines Layer S expects - every cache file is, at every
+   moment, the cache of one uninterrupted session over those lines (C08_files) *)
+Theorem C09_every_aligned_history : forall p name uhdr Bs,
+  (len (params_to_text BSgen.Consts.version (N.of_nat p) ++ uhdr) <= 65535)%N -> (N.of_nat p < 2^64)%N ->
+  StronglySorted le (map fst (map (open_spec name) Bs)) ->
+  forall ops st l, cinv p name uhdr Bs st l -> cvalid_all p name uhdr Bs l ops ->
+  exists st', crun name Bs st ops = Some st' /\ cinv p name uhdr Bs st' (fold_left (cspec p) ops l).
+Proof. exact history_caches_ok. Qed.
+Print Assumptions C09_every_aligned_history.
+
+Theorem C09_every_aligned_history_from_create : forall p name uhdr Bs,
+  (len (params_to_text BSgen.Consts.version (N.of_nat p) ++ uhdr) <= 65535)%N -> (N.of_nat p < 2^64)%N ->
+  StronglySorted le (map fst (map (open_spec name) Bs)) ->
+  forall fs cb0 ops,
+  fs_mem fs (name ++ ext_data) = false -> fs_mem fs (name ++ ext_index) = false ->
+  Forall (fun B => (1 <= B)%N /\ (len (config_header name B) <= 65535)%N
+                   /\ fs_mem fs (cache_name name B ++ ext_data) = false /\ fs_mem fs (cache_name name B ++ ext_index) = false) Bs ->
+  NoDup ([name ++ ext_data; name ++ ext_index] ++ flat_map (cache_names name) Bs) ->
+  cvalid_all p name uhdr Bs [] ops ->
+  exists fs0 s0 st', series_new name (N.of_nat p) uhdr Bs cb0 fs = (fs0, Ok s0)
+    /\ crun name Bs (fs0, s0) ops = Some st' /\ cinv p name uhdr Bs st' (fold_left (cspec p) ops []).
+Proof. exact history_caches_from_create. Qed.
+Print Assumptions C09_every_aligned_history_from_create.
+
 (* the repair pass of one level (repair::add_missing_data) adds nothing when the level holds whole buckets of all lines:
    what lies after the mean of the last bucket is less than a bucket *)
 Theorem C09_repair_adds_nothing : forall p B, B > 0 -> forall fs (src down:data) cb hdr ihdr (l:list (N * list byte)) k,
@@ -40,4 +87,4 @@ Proof. exact add_missing_aligned. Qed.
 Print Assumptions C09_repair_adds_nothing.
 (* partial: reopen at a line count that is not a multiple of a bucket size, and every damaged state of the caches, are outside
    these theorems: there the library deviates (known finding D10: the repair resumes after the MEAN timestamp of the last bucket
-   and the open bucket is reset) and the judge reports it as KNOWN-FINDING. Payload sizes 0..3: judged. *)
+   and the open bucket is reset) and the judge reports it as KNOWN-FINDING. Payload sizes 0..3 with 0xFFFF continuation words: D6. *)
